@@ -652,6 +652,74 @@ theorem C13_hypotheses_satisfiable :
   show (List.map (·.1) [(str "-k", ([] : Str)), (str "k", str "new")]).Nodup
   decide
 
+/-! ## The predicate the driver evaluates on the implementation's output -/
+
+/-- What an accepting verdict of the keyed-family predicate `Check.keyed` certifies about ANY
+    result `new` (in the check: the real generator's): for every key of the original or named
+    by the adjustment, `new` holds what the adjustment wants (`Check.expected`: the converted
+    last set / nothing / the original item), nothing else appears, no key occurs twice, and for
+    ordered families the untouched items are unchanged in their order — the statements of the
+    `set_wins` / `removed` / `frame` / `frame_order` theorems above. -/
+theorem C13_check_keyed_meaning {ε β : Type} [DecidableEq β] (fam : String) (show_ : Str → String)
+    (rawKey : ε → Str) (conv : ε → β) (key : β → Str) (isMap ordered : Bool) (L : List ε)
+    (old new : List β) :
+    Check.keyed fam show_ rawKey conv key isMap ordered L old new = [] ↔
+      (∀ k, (k ∈ old.map key ∨ k ∈ Check.named rawKey L) →
+        find key k new = Check.expected rawKey conv key L old k) ∧
+      (∀ x ∈ new, key x ∈ old.map key ∨ key x ∈ Check.named rawKey L) ∧
+      NodupKeys key new ∧
+      (ordered = true →
+        new.filter (fun x => !(Check.named rawKey L).contains (key x)) =
+        old.filter (fun x => !(Check.named rawKey L).contains (key x))) :=
+  Check.keyed_nil_iff fam show_ rawKey conv key isMap ordered L old new
+
+/-- No false alarm by construction: the model's device result passes the device predicate
+    (keyed conditions and cgroup rules) whenever the guard holds. -/
+theorem C13_check_accepts_model_devices (hext : ext.CDIFramed) (h : adjust ext s a = .ok s')
+    (hn : NodupKeys Oci.Device.path s.devices) :
+    Check.checkDevices s.devices a.linuxDevices s'.devices s.devRules s'.devRules = [] := by
+  unfold Check.checkDevices
+  rw [devices_eq hext h hn, C13_devices_cgroup_rules hext h,
+    Check.keyed_accepts_twoPass "devices" Check.showS LinuxDevice.path LinuxDevice.toOCI Oci.Device.path
+      false true a.linuxDevices s.devices (fun _ _ => rfl) hn]
+  simp
+
+/-- … and so does the model's mount result: the keyed conditions and sortedness (the Boolean
+    `parentsFirst` test is not covered by this theorem; `C13_parent_first` is its model-side
+    statement). -/
+theorem C13_check_accepts_model_mounts (hext : ext.CDIFramed) (h : adjust ext s a = .ok s')
+    (hn : NodupKeys Oci.Mount.destination s.mounts) (hne : a.mounts ≠ []) :
+    Check.keyed "mounts" Check.showS Api.Mount.destination Api.Mount.toOCI Oci.Mount.destination
+      false false a.mounts s.mounts s'.mounts = [] ∧ Check.sortedMounts s'.mounts = true := by
+  have hnd : NodupKeys Oci.Mount.destination
+      (gSets Oci.Mount.destination Api.Mount.destination Api.Mount.toOCI
+        (gRemovals Oci.Mount.destination Api.Mount.destination s.mounts a.mounts) a.mounts) :=
+    nodup_gSets Oci.Mount.destination Api.Mount.destination Api.Mount.toOCI (fun _ _ => rfl) a.mounts
+      (nodup_gRemovals Oci.Mount.destination Api.Mount.destination a.mounts hn)
+  have hacc := (Check.keyed_nil_iff "mounts" Check.showS Api.Mount.destination Api.Mount.toOCI
+      Oci.Mount.destination false false a.mounts s.mounts _).mp
+    (Check.keyed_accepts_twoPass "mounts" Check.showS Api.Mount.destination Api.Mount.toOCI
+      Oci.Mount.destination false false a.mounts s.mounts (fun _ _ => rfl) hn)
+  constructor
+  · rw [Check.keyed_nil_iff, mounts_eq hext h hne]
+    refine ⟨?_, ?_, Mounts.nodup_sortMounts hnd, by intro hf; cases hf⟩
+    · intro k hk
+      rw [Mounts.find_sortMounts hnd]; exact hacc.1 k hk
+    · intro x hx
+      exact hacc.2.1 x ((Mounts.sortMounts_perm _).mem_iff.mp hx)
+  · have hs := C13_mounts_sorted hext h hne
+    generalize s'.mounts = l at hs
+    unfold Mounts.Sorted at hs
+    induction l with
+    | nil => rfl
+    | cons x r ih =>
+      cases r with
+      | nil => rfl
+      | cons y t =>
+        rw [List.pairwise_cons] at hs
+        simp only [Check.sortedMounts, hs.1 y (by simp), Bool.not_false, Bool.true_and]
+        exact ih hs.2
+
 /-! ## The code before the repairs, and why each guard is there (concrete witnesses) -/
 
 /-- Before /repo 1f50159 (`AdjustAnnotations` in one pass): `{"-k": "", "k": "new"}` on a spec
